@@ -93,7 +93,7 @@ class RunnerBasics(Harness):
                                   "1": {"side": "B", "acts": ["none", "limit", "cancel"], "max_orders": 2, "vol_fixed": 1}}}
         elif sc == "cancel-filled":
             menu = {"vol_fixed": 1, "per_agent": {
-                "0": {"side": "B", "acts_by_time": {"0": ["limit"], "1": ["none", "cancel"]}},
+                "0": {"side": "B", "acts_by_time": {"0": ["limit"], "1": ["none", "limit", "cancel"]}},
                 "1": {"side": "S", "acts_by_time": {"0": ["limit"], "1": ["none", "cancel"]}}}, "ttl": [None, 1]}
         elif sc == "halt":
             # step 1: agent 0 bids (solver-chosen price), agent 1 sells into it, agent 2 bids again in the same step
